@@ -146,6 +146,9 @@ Inductive implres :=
 | IErrOp (i : nat) (e : err)            (* add_* call number i raised *)
 | IErrBuild (e : err)                   (* build raised one of the errors of the slice *)
 | IOutside                              (* build raised something the slice does not model (balance, collateral, ...) *)
+| IOutsideEarly                         (* build() gave up during input selection ("All UTxO selectors failed"), i.e. BEFORE
+                                           _set_redeemer_index / _update_execution_units ran: an error of the slice that the
+                                           model reports for these calls was never reached *)
 | IDone (tx : bytes) (wits_nodup : bytes) (rl : list (N * N * nat * (N * N))).  (* rid, tag, index, units *)
 
 Definition err_eqb (a b : err) : bool :=
@@ -210,6 +213,7 @@ Definition corr (c : case) (r : implres) : bool :=
       match build st (with_extra (c_args c) [] true) with Err e => err_eqb e e' | Ok _ => false end
   | inl st, IOutside =>
       match build st (with_extra (c_args c) [] true) with Err _ => false | Ok _ => true end
+  | inl st, IOutsideEarly => true
   | inl st, IDone tx wnd rl =>
       match observe tx, observe_wits wnd with
       | Some o, Some (n0, v10, v20, v30) =>
@@ -218,7 +222,7 @@ Definition corr (c : case) (r : implres) : bool :=
           match build st (with_extra (c_args c) extra true), build st (with_extra (c_args c) extra false) with
           | Ok t, Ok t0 =>
               list_eqb txin_eqb (t_inputs t) (o_inputs o)
-              && list_eqb txin_eqb (isort txin_ltb (t_refin t)) (isort txin_ltb (o_refin o))
+              && list_eqb txin_eqb (isort txin_ltb (body_refin t (c_ops c))) (isort txin_ltb (o_refin o))
               && list_eqb bytes_eqb (isort bytes_ltb (t_mint t)) (isort bytes_ltb (o_mint o))
               && list_eqb bytes_eqb (isort bytes_ltb (t_wdrl t)) (isort bytes_ltb (o_wdrl o))
               && list_eqb bytes_eqb (t_certs t) (o_certs o)
